@@ -71,6 +71,11 @@ SnapV(vv, e, m2, what) ==
      \* a round that leaves its queues out of priority order has prepared the next round to miss the best pair
      !.C03 = F(@, what = "match" /\ (e.oB # IdsInPriority(m2.live, TRUE) \/ e.oS # IdsInPriority(m2.live, FALSE)),
                "C03:queues-left-unordered-by-round"),
+     \* "moved onto the grid BEFORE acceptance": an off-grid order queues where its ACCEPTED price belongs - behind the older
+     \* orders resting at that price, not ahead of them as its submitted price would have it
+     !.C19 = F(@, what = "submit" /\ Hd.exact /\ ~e.mo /\ e.req % m2.den # 0
+                  /\ (e.oB # IdsInPriority(m2.live, TRUE) \/ e.oS # IdsInPriority(m2.live, FALSE)),
+               "C19:off-grid-order-queued-by-its-submitted-price"),
      !.C06 = F(@, e.clock # m2.clock, "C06:clock-after-" \o what)]
 \* the model can follow only while the observed book is the model book
 InSync(e, m2) == ObsBook(e) = BookOf(m2.live) /\ e.clock = m2.clock
@@ -192,7 +197,10 @@ JumpStep(e) ==
       setok == obsIds = {x.id : x \in gone} /\ Len(e.exp) = Cardinality(obsIds)
       followable == ~setok /\ obsIds \subseteq {x.id : x \in mkt.live} /\ Len(e.exp) = Cardinality(obsIds)
       goneF == IF followable THEN {x \in mkt.live : x.id \in obsIds} ELSE gone
-      m2 == [mkt EXCEPT !.clock = now, !.live = mkt.live \ goneF,
+      \* reference layer: the transcription of Market._set_time (what the design model MC_PamsMarket_jump is checked with)
+      canRef == now > mkt.clock /\ mkt.clock >= 0
+      ref == IF canRef THEN MJump(mkt, now, e.fund) ELSE mkt
+      m2 == [mkt EXCEPT !.clock = now, !.live = mkt.live \ goneF, !.hist = ref.hist,
                         !.row = [mkt |-> o[1], last |-> o[2], mid |-> o[3], fund |-> e.fund, eVol |-> 0, eTot |-> 0, nB |-> 0, nS |-> 0]]
       volok == \A k \in 1..Len(e.exp) : \A x \in gone : x.id = e.exp[k][1] => x.vol = e.exp[k][2]
       v1 == [v EXCEPT
@@ -201,13 +209,20 @@ JumpStep(e) ==
                            obsIds # ({x.id : x \in mkt.live} \ {e.book[k][1] : k \in 1..Len(e.book)}) \/ Len(e.exp) # Cardinality(obsIds),
                            "C10:expiry-records-differ-from-the-orders-that-left"),
                            \E k \in 1..Len(e.exp) : Len(e.exp[k]) >= 3 /\ e.exp[k][3] # now, "C10:expiry-record-time"),
-               !.C06 = F(@, e.clock # now, "C06:clock-jump")] IN
+               \* the jump records nothing about the steps that were finished before it: their rows stay what they were, and
+               \* the row of the step the jump ends is the one read just before it
+               !.C08 = F(@, ~IsPrefix(seen, e.hist), "C08:statistics-of-a-finished-step-changed-by-jump"),
+               !.REF = F(@, Hd.exact /\ canRef /\ <<ref.row.mkt, ref.row.last, ref.row.mid>> # <<o[1], o[2], o[3]>>, "REF:jump-row-differs"),
+               !.C06 = F(F(F(F(@, e.clock # now, "C06:clock-jump"),
+                          Len(e.hist) # now, "C06:history-length-after-jump"),
+                          ~IsPrefix(seen, e.hist), "C06:history-changed-by-jump"),
+                          e.pre # 0 /\ e.told >= 0 /\ Len(e.hist) > e.told /\ e.hist[e.told + 1] # e.pre, "C06:closing-row-rewritten-by-jump")] IN
   /\ mkt' = m2
   /\ acct' = [i \in 1..Len(acct) |->
                 IF InBook(goneF, i - 1)
                 THEN [acct[i] EXCEPT !.term = ExpiredT, !.tvol = ById(goneF, i - 1).vol]
                 ELSE acct[i]]
-  /\ seen' = seen             \* the times skipped by the jump are not recorded history yet
+  /\ seen' = e.hist           \* (rows of skipped times: whatever the getters answer for them from now on, refusals included)
   /\ objs' = objs
   /\ v' = SnapV(v1, e, m2, "jump")
   /\ sync' = (now > mkt.clock /\ (setok \/ followable) /\ InSync(e, m2))
